@@ -11,8 +11,8 @@ LEVEL = 'proof'
 PROP = 'C10'
 MODULES = ['Netpoll.Props.C10']
 MANIFEST = dict(
-    text='Lean 4 invariant proof over an interleaving model of one poller slot through any number of owners: for every sequence of alloc / register / fetch / dispatch / end-of-batch / close steps and stale Release calls, '
-         'a fetched event is only ever dispatched to the callbacks of the owner it was fetched for (or dropped), no stale call takes a later owner\'s token, and a slot returns to the free chain only between batches with nothing installed. '
+    text='Lean 4 invariant proof over an interleaving model of one poller slot through any number of owners: for every sequence of alloc / register / fetch / dispatch / end-of-batch / close steps, stale Release calls and Release calls of the live owner (token taken and given back), '
+         'a fetched event is only ever dispatched to the callbacks of the owner it was fetched for (or dropped), no stale call takes a later owner\'s token, a slot returns to the free chain only between batches with nothing installed, and the token is taken only while the poller or the owner is inside its section (C10_token_returned: at quiescence a registered slot has state 1). '
          'The model is tied to fd_operator.go / fd_operator_cache.go / poll_default_linux.go by executing the poller loop body step by step on real connections and comparing every step with the model.',
     note='partial: A-epoll-del (no event is fetched for a descriptor after EPOLL_CTL_DEL returned) and one-poller-per-cache are assumptions; the residual window of a Release racing the close of its own connection is outside the model (stale = the close has completed). The defect fixed by 1c26766 is kept as a Lean witness.',
     technique='Lean 4 inductive invariant over a slot-reuse interleaving model + step-by-step trace conformance with the real poller code', design='§6 C10')
@@ -85,7 +85,7 @@ def run(rep):
     rep.cov.update(evaluations=n, distinct_nontrivial=len(finals), step_histogram=dict(hist), slot_reuses=reuse, events_skipped_after_close=skipped, stale_calls=stale,
                    traces_validated_against_impl=n, samples=results[0]['samples'],
                    rule='random step sequences over up to 6 real connections sharing one private poller whose loop body the harness executes step by step (fetch = real EpollWait, dispatch = real handler on one event, end of batch = opcache.free), '
-                        'with closes placed between fetch and dispatch, slot reuse by new connections and stale Release/Close/Next/Write/Flush on closed connections; every step compared with the Lean model; bystanders must receive exactly what was sent. distinct_nontrivial = distinct final slot observations')
+                        'with closes placed between fetch and dispatch, slot reuse by new connections, stale Release/Close/Next/Write/Flush on closed connections, Release on LIVE connections between steps (rel) and in a loop on another goroutine during a dispatch of arriving input (drel, joined before the observation); every step compared with the Lean model; bystanders must receive exactly what was sent, and at quiescence no slot of a live connection is left with its token taken. distinct_nontrivial = distinct final slot observations')
     rep.assumptions += ['A-epoll-del: no event is fetched for a descriptor after EPOLL_CTL_DEL returned', 'single harness goroutine: steps are atomic at the granularity of the model']
     genuine = [p for p in problems if p[2] == 'impl-violates-spec']
     others = [p for p in problems if p[2] != 'impl-violates-spec']
